@@ -139,3 +139,232 @@ package raft
 //@ ensures old(ents[0].Index) <= old(im.markerIndex) && old(ents[0].Index) != old(im.markerIndex) + len(old(im.entries)) ==> im.savedTo == old(ents[0].Index) - 1
 //@ ensures old(ents[0].Index) > old(im.markerIndex) && old(ents[0].Index) < old(im.markerIndex) + len(old(im.entries)) ==> im.savedTo == min(old(im.savedTo), old(ents[0].Index) - 1)
 //@ ensures im.savedTo <= old(im.savedTo) || im.savedTo == old(ents[0].Index) - 1
+
+// ---------------------------------------------------------------- ILogDB (assumed; LogReader is verified against the same clauses in internal/logdb)
+
+//@ ghost field ILogDB.gfirst int
+//@ ghost field ILogDB.glast int
+//@ ghost field ILogDB.gterm intmap
+
+//@ pred (db ILogDB) dbok() := db != nil && db.gfirst >= 1 && db.gfirst <= db.glast + 1 && db.glast < MaxUint64
+
+//@ iface (db ILogDB) GetRange
+//@ requires db.dbok()
+//@ ensures result0 == db.gfirst && result1 == db.glast
+
+//@ iface (db ILogDB) Term
+//@ requires db.dbok()
+//@ ensures result1 == nil ==> index >= db.gfirst - 1 && index <= db.glast && result0 == db.gterm[index]
+//@ ensures result1 != nil ==> result0 == 0
+//@ ensures errIs(result1, ErrCompacted) ==> index < db.gfirst - 1
+
+//@ iface (db ILogDB) Entries
+//@ requires db.dbok()
+//@ ensures result1 == nil ==> low >= db.gfirst && high <= db.glast + 1 && low <= high && len(result0) <= high - low
+//@ ensures result1 == nil && low < high ==> len(result0) >= 1
+//@ ensures result1 == nil ==> (forall i int :: 0 <= i && i < len(result0) ==> result0[i].Index == low + i && result0[i].Term == db.gterm[low + i])
+//@ ensures result1 != nil ==> len(result0) == 0
+//@ ensures result1 == nil ==> fresh(result0) || cap(result0) == 0
+
+//@ iface (db ILogDB) Snapshot
+
+// ---------------------------------------------------------------- entryLog
+
+//@ pred (l *entryLog) lastIdx() := ite(len(l.inmem.entries) > 0, l.inmem.markerIndex + len(l.inmem.entries) - 1,
+//@    ite(l.inmem.snapshot != nil, l.inmem.snapshot.Index, l.logdb.glast))
+//@ pred (l *entryLog) firstIdx() := ite(l.inmem.snapshot != nil, l.inmem.snapshot.Index + 1, l.logdb.gfirst)
+//@ pred (l *entryLog) termAt(i int) := ite(i < l.firstIdx() - 1 || i > l.lastIdx(), 0,
+//@    ite(i > 0 && i == l.inmem.appliedToIndex, l.inmem.appliedToTerm,
+//@    ite(i >= l.inmem.markerIndex && i < l.inmem.markerIndex + len(l.inmem.entries), l.inmem.entries[i - l.inmem.markerIndex].Term,
+//@    ite(i < l.inmem.markerIndex && l.inmem.snapshot != nil && l.inmem.snapshot.Index == i, l.inmem.snapshot.Term, l.logdb.gterm[i]))))
+
+//@ pred (l *entryLog) valid() := l.inmem.valid() && l.logdb.dbok() && l.processed <= l.committed && l.committed <= l.lastIdx() &&
+//@    l.firstIdx() <= l.lastIdx() + 1 && l.committed >= l.firstIdx() - 1 &&
+//@    (l.inmem.snapshot == nil ==> l.inmem.markerIndex <= l.logdb.glast + 1 && l.inmem.markerIndex >= l.logdb.gfirst)
+
+//@ func (l *entryLog) firstIndex [C19]
+//@ requires l.valid()
+//@ ensures result == l.firstIdx()
+
+//@ func (l *entryLog) lastIndex [C19 C02]
+//@ requires l.valid()
+//@ ensures result == l.lastIdx()
+
+//@ func (l *entryLog) termEntryRange [C19]
+//@ requires l.valid()
+//@ ensures result0 == l.firstIdx() - 1 && result1 == l.lastIdx()
+
+//@ func (l *entryLog) entryRange [C19]
+//@ requires l.valid()
+//@ ensures (l.inmem.snapshot != nil && len(l.inmem.entries) == 0) ==> !result2
+//@ ensures !(l.inmem.snapshot != nil && len(l.inmem.entries) == 0) ==> result2 && result0 == l.firstIdx() && result1 == l.lastIdx()
+
+//@ func (l *entryLog) term [C19 C02]
+//@ requires l.valid()
+//@ ensures result1 == nil ==> result0 == l.termAt(index)
+//@ ensures (index < l.firstIdx() - 1 || index > l.lastIdx()) ==> result1 == nil && result0 == 0
+
+//@ func (l *entryLog) lastTerm [C19]
+//@ requires l.valid()
+//@ ensures result1 == nil ==> result0 == l.termAt(l.lastIdx())
+
+//@ func (l *entryLog) matchTerm [C19 C02]
+//@ requires l.valid()
+//@ ensures result1 == nil ==> result0 == (l.termAt(index) == term)
+
+//@ func (l *entryLog) upToDate [C19 C03]
+//@ requires l.valid()
+//@ ensures result1 == nil ==> result0 == (term > l.termAt(l.lastIdx()) || (term == l.termAt(l.lastIdx()) && index >= l.lastIdx()))
+
+//@ func (l *entryLog) checkBound [C19]
+//@ requires l.valid()
+//@ ensures low <= high
+//@ ensures result == nil ==> !(l.inmem.snapshot != nil && len(l.inmem.entries) == 0) && low >= l.firstIdx() && high <= l.lastIdx() + 1
+//@ ensures result != nil ==> result == ErrCompacted && (low < l.firstIdx() || (l.inmem.snapshot != nil && len(l.inmem.entries) == 0))
+
+//@ func (l *entryLog) commitTo [C19 C02]
+//@ requires l.valid()
+//@ modifies l.committed
+//@ ensures l.valid()
+//@ ensures l.committed == max(old(l.committed), index) && index <= l.lastIdx()
+
+//@ func (l *entryLog) firstNotAppliedIndex [C19 C02]
+//@ requires l.valid() && l.processed < MaxUint64
+//@ ensures result == max(l.processed + 1, l.firstIdx())
+
+//@ func (l *entryLog) toApplyIndexLimit [C19]
+//@ requires l.valid()
+//@ ensures result == l.committed + 1
+
+//@ func (l *entryLog) hasEntriesToApply [C19]
+//@ requires l.valid() && l.processed < MaxUint64
+//@ ensures result == (l.committed + 1 > max(l.processed + 1, l.firstIdx()))
+
+//@ func (l *entryLog) tryCommit [C19 C02]
+//@ requires l.valid() && term > 0
+//@ modifies l.committed
+//@ ensures l.valid()
+//@ ensures result1 == nil && result0 ==> index > old(l.committed) && l.termAt(index) == term && l.committed == index
+//@ ensures !result0 ==> l.committed == old(l.committed)
+
+//@ func (l *entryLog) restore [C19 C02]
+//@ requires l.valid() && s.Index < MaxUint64
+//@ modifies l.inmem.snapshot, l.inmem.markerIndex, l.inmem.appliedToIndex, l.inmem.appliedToTerm, l.inmem.shrunk, l.inmem.entries, l.inmem.savedTo, l.committed, l.processed
+//@ ensures s.Index >= old(l.committed)
+//@ ensures l.committed == s.Index && l.processed == s.Index && l.lastIdx() == s.Index && l.firstIdx() == s.Index + 1
+//@ ensures l.inmem.valid() && l.inmem.savedTo == s.Index && l.inmem.snapshot.Term == s.Term
+
+//@ func (l *entryLog) getEntriesFromLogDB [C19]
+//@ requires l.valid() && low <= high && low >= l.firstIdx()
+//@ ensures result2 == nil && low >= l.inmem.markerIndex ==> len(result0) == 0 && result1
+//@ ensures result2 == nil && low < l.inmem.markerIndex ==> len(result0) >= 1 || low == high
+//@ ensures result2 == nil ==> len(result0) <= min(high, l.inmem.markerIndex) - low || low >= l.inmem.markerIndex
+//@ ensures result2 == nil && low < l.inmem.markerIndex ==> result1 == (len(result0) == min(high, l.inmem.markerIndex) - low)
+//@ ensures result2 == nil ==> (forall i int :: 0 <= i && i < len(result0) ==> result0[i].Index == low + i && result0[i].Term == l.logdb.gterm[low + i])
+//@ ensures result2 != nil ==> len(result0) == 0
+//@ ensures fresh(result0) || cap(result0) == 0
+
+//@ func (l *entryLog) getEntriesFromInMem [C19]
+//@ requires l.valid() && low <= high && high <= l.lastIdx() + 1
+//@ requires len(ents) > 0 ==> ents[0].Index + len(ents) <= MaxUint64 && (forall i int :: 0 <= i && i < len(ents) ==> ents[i].Index == ents[0].Index + i)
+//@ requires len(ents) > 0 && high > l.inmem.markerIndex ==> ents[0].Index + len(ents) == max(low, l.inmem.markerIndex)
+//@ modifies elems(ents[len(ents):])
+//@ ensures high <= l.inmem.markerIndex ==> len(result) == len(ents) && ptr(result) == ptr(ents)
+//@ ensures high > l.inmem.markerIndex ==> len(result) == len(ents) + (high - max(low, l.inmem.markerIndex))
+//@ ensures forall i int :: 0 <= i && i < len(ents) ==> result[i].Index == old(ents[i].Index) && result[i].Term == old(ents[i].Term)
+//@ ensures forall i int :: len(ents) <= i && i < len(result) ==> result[i].Index == max(low, l.inmem.markerIndex) + (i - len(ents)) &&
+//@     result[i].Term == old(l.inmem.entries[max(low, l.inmem.markerIndex) + (i - len(ents)) - l.inmem.markerIndex].Term)
+
+//@ pred (l *entryLog) termRaw(i int) := ite(i >= l.inmem.markerIndex && i < l.inmem.markerIndex + len(l.inmem.entries),
+//@    l.inmem.entries[i - l.inmem.markerIndex].Term, l.logdb.gterm[i])
+
+//@ func limitSize [C19]
+//@ ensures len(ents) > 0 ==> len(result) >= 1
+//@ ensures len(result) <= len(ents) && ptr(result) == ptr(ents)
+//@ loop 1 invariant inc >= 1 && inc <= len(ents)
+
+//@ func (l *entryLog) getEntries [C19 C02]
+//@ requires l.valid()
+//@ ensures low <= high
+//@ ensures low < l.firstIdx() ==> result1 != nil
+//@ ensures result1 != nil ==> len(result0) == 0
+//@ ensures result1 == nil ==> low >= l.firstIdx() && high <= l.lastIdx() + 1 && len(result0) <= high - low
+//@ ensures result1 == nil && low < high ==> len(result0) >= 1
+//@ ensures result1 == nil ==> (forall i int :: 0 <= i && i < len(result0) ==> result0[i].Index == low + i)
+//@ free ensures result1 == nil ==> (forall i int :: 0 <= i && i < len(result0) ==> result0[i].Term == old(l.termRaw(low + i)))
+
+//@ func (l *entryLog) entries [C19]
+//@ requires l.valid()
+//@ ensures result1 != nil ==> len(result0) == 0
+//@ ensures result1 == nil && start <= l.lastIdx() ==> len(result0) >= 1 && start >= l.firstIdx()
+//@ ensures result1 == nil ==> (forall i int :: 0 <= i && i < len(result0) ==> result0[i].Index == start + i && result0[i].Term == old(l.termRaw(start + i)))
+//@ ensures result1 == nil ==> start + len(result0) <= l.lastIdx() + 1 || len(result0) == 0
+
+//@ func (l *entryLog) getEntriesToApply [C19 C02 C11]
+//@ requires l.valid() && l.processed < MaxUint64
+//@ ensures result1 != nil ==> len(result0) == 0
+//@ ensures result1 == nil ==> (forall i int :: 0 <= i && i < len(result0) ==> result0[i].Index == max(l.processed + 1, l.firstIdx()) + i && result0[i].Term == old(l.termRaw(max(l.processed + 1, l.firstIdx()) + i)))
+//@ ensures result1 == nil ==> len(result0) == 0 || max(l.processed + 1, l.firstIdx()) + len(result0) - 1 <= l.committed
+//@ ensures result1 == nil && l.committed + 1 > max(l.processed + 1, l.firstIdx()) ==> len(result0) >= 1
+
+//@ func (l *entryLog) getCommittedEntries [C19]
+//@ requires l.valid()
+//@ ensures result1 != nil ==> len(result0) == 0
+//@ ensures result1 == nil ==> (forall i int :: 0 <= i && i < len(result0) ==> result0[i].Index == low + i && result0[i].Index <= l.committed && result0[i].Term == old(l.termRaw(low + i)))
+
+//@ func (l *entryLog) entriesToSave [C19]
+//@ requires l.valid() && l.inmem.savedTo < MaxUint64
+//@ ensures l.inmem.savedTo + 1 >= l.inmem.markerIndex && l.inmem.savedTo + 1 <= l.inmem.markerIndex + len(l.inmem.entries) ==>
+//@    len(result) == l.inmem.markerIndex + len(l.inmem.entries) - (l.inmem.savedTo + 1)
+//@ ensures !(l.inmem.savedTo + 1 >= l.inmem.markerIndex && l.inmem.savedTo + 1 <= l.inmem.markerIndex + len(l.inmem.entries)) ==> len(result) == 0
+//@ ensures forall i int :: 0 <= i && i < len(result) ==> result[i].Index == l.inmem.savedTo + 1 + i && result[i].Term == l.inmem.entries[l.inmem.savedTo + 1 + i - l.inmem.markerIndex].Term
+
+//@ func (l *entryLog) append [C19 C02]
+//@ requires l.valid()
+//@ requires len(entries) > 0 ==> consecutive(entries) && entries[0].Index > 0
+//@ modifies l.inmem.markerIndex, l.inmem.shrunk, l.inmem.entries, l.inmem.savedTo, elems(l.inmem.entries[len(l.inmem.entries):])
+//@ ensures l.valid()
+//@ ensures len(entries) == 0 ==> l.lastIdx() == old(l.lastIdx()) && l.inmem.savedTo == old(l.inmem.savedTo)
+//@ ensures len(entries) > 0 ==> old(entries[0].Index) > l.committed && l.lastIdx() == old(entries[0].Index) + len(entries) - 1
+//@ ensures len(entries) > 0 ==> (forall i int :: 0 <= i && i < len(entries) ==> l.termRaw(old(entries[0].Index) + i) == old(entries[i].Term))
+//@ ensures len(entries) > 0 ==> (forall j int :: l.inmem.markerIndex <= j && j < old(entries[0].Index) ==> l.termRaw(j) == old(l.termRaw(j)))
+//@ ensures len(entries) > 0 ==> l.inmem.savedTo <= old(l.inmem.savedTo) || l.inmem.savedTo == old(entries[0].Index) - 1
+//@ ensures len(entries) > 0 && old(entries[0].Index) < old(l.inmem.markerIndex) + len(old(l.inmem.entries)) ==> l.inmem.savedTo < old(entries[0].Index)
+//@ ensures l.committed == old(l.committed) && l.processed == old(l.processed) && l.firstIdx() == old(l.firstIdx())
+
+//@ func (l *entryLog) getConflictIndex [C19 C02]
+//@ requires l.valid()
+//@ requires len(entries) > 0 ==> consecutive(entries) && entries[0].Index > 0
+//@ ensures result1 == nil && result0 == 0 ==> (forall j int :: 0 <= j && j < len(entries) ==> l.termAt(entries[j].Index) == entries[j].Term)
+//@ ensures result1 == nil && result0 != 0 ==> result0 >= entries[0].Index && result0 < entries[0].Index + len(entries) &&
+//@     l.termAt(result0) != entries[result0 - entries[0].Index].Term &&
+//@     (forall j int :: 0 <= j && j < result0 - entries[0].Index ==> l.termAt(entries[j].Index) == entries[j].Term)
+//@ loop 1 invariant forall j int :: 0 <= j && j <= $i ==> l.termAt(entries[j].Index) == entries[j].Term
+
+//@ func (l *entryLog) tryAppend [C19 C02]
+//@ requires l.valid()
+//@ requires len(ents) > 0 ==> consecutive(ents) && ents[0].Index == index + 1 && index < MaxUint64
+//@ modifies l.inmem.markerIndex, l.inmem.shrunk, l.inmem.entries, l.inmem.savedTo, elems(l.inmem.entries[len(l.inmem.entries):])
+//@ ensures l.valid()
+//@ ensures result1 == nil && !result0 ==> l.lastIdx() == old(l.lastIdx()) && l.inmem.savedTo == old(l.inmem.savedTo) &&
+//@     (forall j int :: 0 <= j && j < len(ents) ==> old(l.termAt(ents[j].Index)) == old(ents[j].Term))
+//@ ensures result0 ==> result1 == nil && len(ents) > 0 && l.lastIdx() == old(ents[0].Index) + len(ents) - 1
+//@ ensures l.committed == old(l.committed) && l.processed == old(l.processed)
+
+//@ func newEntryLog [C19]
+//@ requires logdb.dbok()
+//@ ensures result.valid() && result.committed == logdb.gfirst - 1 && result.processed == logdb.gfirst - 1
+//@ ensures result.lastIdx() == logdb.glast && result.firstIdx() == logdb.gfirst && result.inmem.savedTo == logdb.glast
+
+//@ func (l *entryLog) commitUpdate [C19 C02]
+//@ requires l.valid()
+//@ requires cu.LastApplied > 0 ==> cu.LastApplied <= l.logdb.glast &&
+//@    (forall i int :: l.inmem.markerIndex <= i && i <= cu.LastApplied && i < l.inmem.markerIndex + len(l.inmem.entries) ==> l.logdb.gterm[i] == l.inmem.entries[i - l.inmem.markerIndex].Term)
+//@ modifies l.inmem.savedTo, l.inmem.snapshot, l.processed, l.inmem.appliedToIndex, l.inmem.appliedToTerm, l.inmem.shrunk, l.inmem.entries, l.inmem.markerIndex
+//@ ensures l.inmem.valid()
+//@ ensures cu.Processed > 0 ==> l.processed == cu.Processed && cu.Processed >= old(l.processed) && cu.Processed <= l.committed
+//@ ensures cu.Processed == 0 ==> l.processed == old(l.processed)
+//@ ensures cu.LastApplied > 0 ==> cu.LastApplied <= l.processed
+//@ ensures l.committed == old(l.committed)
+//@ ensures l.inmem.markerIndex + len(l.inmem.entries) == old(l.inmem.markerIndex + len(l.inmem.entries))
+//@ ensures forall i int :: l.inmem.markerIndex <= i && i < l.inmem.markerIndex + len(l.inmem.entries) ==> l.termRaw(i) == old(l.termRaw(i))
